@@ -61,6 +61,11 @@ def int_to_sstr(x, max_digits=12):
 def sx_str(*a, **k):
     if len(a) == 1 and not k:
         x = a[0]
+        if hasattr(x, "as_int_term"):        # C integer of the KX runtime
+            v = x.as_int_term()
+            x = v if isinstance(v, int) else SInt.mk(v)
+            if isinstance(x, int):
+                return str(x)
         if isinstance(x, SStr):
             return x
         if isinstance(x, SInt):
@@ -124,6 +129,12 @@ def sx_in(a, b):
 
 def _fmt_one(v, conv, spec):
     """format one value with a (concrete) format spec; supports str/int alignment and width"""
+    if hasattr(v, "as_int_term"):
+        try:
+            t = v.as_int_term()
+            v = t if isinstance(t, int) else SInt.mk(t)
+        except Escape:
+            return "<sym>"
     if conv == ord("r"):
         if isinstance(v, (SStr, SInt)):
             raise Escape("repr of symbolic value in f-string")
@@ -171,10 +182,22 @@ def sx_fstr(*parts):
     for p in parts:
         if isinstance(p, tuple):
             v, conv, spec = p
-            out.append(_fmt_one(v, conv, spec or ""))
+            try:
+                out.append(_fmt_one(v, conv, spec or ""))
+            except (Escape, TypeError, ValueError):
+                out.append("<sym>")         # only ever reached while building (error) messages
         else:
             out.append(p)
-    return sjoin("", out)
+    res = []
+    for o in out:
+        if isinstance(o, (str, SStr)):
+            res.append(o)
+        else:
+            try:
+                res.append(str(o))
+            except Escape:
+                res.append("<sym>")
+    return sjoin("", res)
 
 
 def sx_format(fmt, *args, **kw):
